@@ -376,7 +376,15 @@ func getTagType(v reflect.Value) (byte, reflect.Value) {
 	case reflect.Array, reflect.Slice:
 		var elemType byte
 		if v.Len() > 0 {
-			elemType, _ = getTagType(v.Index(0))
+			var first reflect.Value
+			elemType, first = getTagType(v.Index(0))
+			if first.IsValid() && first.CanInterface() {
+				if _, ok := first.Interface().(Marshaler); ok {
+					// elements that encode themselves (carriers such as RawMessage) are not numbers,
+					// whatever tag they carry: a list of them
+					return TagList, v
+				}
+			}
 		} else {
 			elemType = getTagTypeByType(v.Type().Elem())
 		}
